@@ -336,6 +336,58 @@ fn run_op(st: &mut St, a: &[&str]) -> R {
                 Err(e) => Err(terr(&e)),
             }
         }
+        "gen_stats" => {
+            // gen_stats shape n brlens distr seed reps : aggregate over reps generated trees (support of the lengths, sizes), implementation only
+            let n = usz(a[2]);
+            let brlens = a[3] == "1";
+            let distr = match a[4] {
+                "uniform" => Distr::Uniform,
+                "exponential" => Distr::Exponential,
+                _ => Distr::Gamma,
+            };
+            let seed = a[5].parse::<u64>().unwrap();
+            let reps = usz(a[6]);
+            let (mut cnt, mut missing, mut badshape, mut nonfinite) = (0u64, 0u64, 0u64, 0u64);
+            let (mut mn, mut mx) = (f64::INFINITY, f64::NEG_INFINITY);
+            for r in 0..reps {
+                phylotree::verif_hooks::set_seed(seed.wrapping_add(r as u64));
+                let t = match a[1] {
+                    "yule" => phylotree::generate_yule(n, brlens, distr),
+                    "caterpillar" => phylotree::generate_caterpillar(n, brlens, distr),
+                    _ => phylotree::generate_tree(n, brlens, distr),
+                };
+                let t = match t {
+                    Ok(t) => t,
+                    Err(e) => return Err(terr(&e)),
+                };
+                if t.size() != 2 * n - 1 || t.n_leaves() != n {
+                    badshape += 1;
+                }
+                let root = t.get_root().map_err(|e| terr(&e))?;
+                for id in t.preorder(&root).map_err(|e| terr(&e))? {
+                    if id == root {
+                        continue;
+                    }
+                    match t.get(&id).map_err(|e| terr(&e))?.parent_edge {
+                        Some(v) => {
+                            cnt += 1;
+                            if !v.is_finite() {
+                                nonfinite += 1;
+                            } else {
+                                if v < mn {
+                                    mn = v;
+                                }
+                                if v > mx {
+                                    mx = v;
+                                }
+                            }
+                        }
+                        None => missing += 1,
+                    }
+                }
+            }
+            Ok(format!("{} {} {} {} f{:016x} f{:016x}", cnt, missing, badshape, nonfinite, mn.to_bits(), mx.to_bits()))
+        }
         "upgma" => match st.mats.cur().upgma() {
             Ok(t) => {
                 st.trees[cur] = t;
